@@ -5,6 +5,7 @@ import SctpVerif.Driver.Timer
 import SctpVerif.Driver.Assoc
 import SctpVerif.Driver.PendQ
 import SctpVerif.Driver.RingQ
+import SctpVerif.Driver.Reasm
 /-!
 Driver: replays implementation logs (`<comp> <op…> -> <impl result>`) through the L0 models and
 evaluates the executable property predicates on the implementation's results.
@@ -28,6 +29,7 @@ structure All where
   timer : Tm.St := {}
   pend : Pend.St := {}
   ringq : RingQ.St := {}
+  reasm : Reasm.St := {}
   desync : List String := []
   cnt : Counters := {}
 
@@ -49,6 +51,7 @@ def stepComp (a : All) (comp : String) (op impl : List String) : All × Option S
   | "timer" => let (s, r, e) := Tm.step a.timer op impl; ({ a with timer := s }, some r, e.toList)
   | "pend" => let (s, r, e) := Pend.step a.pend op impl; ({ a with pend := s }, some r, e.toList)
   | "ringq" => let (s, r, e) := RingQ.step a.ringq op impl; ({ a with ringq := s }, some r, e.toList)
+  | "reasm" => let (s, r, e) := Reasm.step a.reasm op impl; ({ a with reasm := s }, some r, e.toList)
   | _ => (a, some "unknown-component", [])
 
 partial def loop (h : IO.FS.Stream) (a : All) (lineNo : Nat) : IO All := do
